@@ -132,6 +132,10 @@ func parseDocument(parser *Parser) (*ast.Document, error) {
 		err   error
 	)
 	start := parser.Token.Start
+	// Document : Definition+ -- a source without any definition is not a document.
+	if peek(parser, lexer.EOF) {
+		return nil, unexpected(parser, lexer.Token{})
+	}
 	for {
 		if skp, err := skip(parser, lexer.EOF); err != nil {
 			return nil, err
